@@ -332,3 +332,376 @@ Proof.
   assert (Pd == 1 / wsumi z p) as Ed by (field_simplify_eq; lra).
   rewrite Ed, <- Eb. exact H.
 Qed.
+
+(* ---------- the residual kernels in an ideal package ---------- *)
+Definition ideal_pkg (k : pkg) : Prop :=
+  phi_ideal k = true /\
+  (forall x T, gam k x T = vones (length (chems k))) /\
+  (forall y T P, phi k y T P = vones (length (chems k))) /\
+  (forall T P Ps, pcf k T P Ps = vones (length (chems k))).
+
+Lemma psats_at_length k T : length (psats_at k T) = length (chems k).
+Proof. apply map_length. Qed.
+Lemma psats_at_pat k T : psats_at k T = pat (map c_psat (chems k)) T.
+Proof. unfold psats_at, pat. rewrite map_map. reflexivity. Qed.
+
+Lemma vmul_length a b : length a = length b -> length (vmul a b) = length a.
+Proof. intros H. unfold vmul. rewrite map2_length_min, H. apply Nat.min_id. Qed.
+
+Lemma wsum_vdivs_l z p c : wsum (vdivs z c) p == wsum z p / c.
+Proof. unfold wsum. rewrite vmul_vdivs_l. apply qsum_vdivs. Qed.
+
+Lemma bubble_T_error_ideal_form k S P z buf T v y :
+  ideal_pkg k -> length z = length (chems k) ->
+  bubble_T_error k S P (vdivs z P) z buf T = Ok (v, y) ->
+  0 < T /\ y =v= vdivs (vmul z (psats_at k T)) P /\ v == 1 - wsum z (psats_at k T) / P.
+Proof.
+  intros (Hphi & Hg & _ & Hpc) L H. unfold bubble_T_error in H.
+  destruct (qleb T 0) eqn:ET; [discriminate|]. apply qleb_false in ET.
+  unfold solve_y in H. rewrite Hphi, Hg, Hpc in H. inversion H; subst; clear H.
+  assert (length (vmul (vdivs z P) (psats_at k T)) = length (chems k)) as L1.
+  { rewrite vmul_length; unfold vdivs; rewrite map_length; [exact L|]. rewrite psats_at_length. exact L. }
+  assert (vmul (vmul (vmul (vdivs z P) (psats_at k T)) (vones (length (chems k)))) (vones (length (chems k)))
+          =v= vdivs (vmul z (psats_at k T)) P) as E.
+  { rewrite vmul_vones_r.
+    - rewrite vmul_vones_r; [apply vmul_vdivs_l | lia].
+    - rewrite vmul_length; [lia|]. rewrite L1, vones_length. reflexivity. }
+  split; [exact ET|]. split; [exact E|]. rewrite E, qsum_vdivs. reflexivity.
+Qed.
+
+(* gamma = phi = pcf = 1: the bubble residual vanishes exactly when P = sum z_i Psat_i(T) *)
+Lemma ideal_closed_form_bubble k S P z buf T v y :
+  ideal_pkg k -> length z = length (chems k) -> ~ P == 0 ->
+  bubble_T_error k S P (vdivs z P) z buf T = Ok (v, y) ->
+  (v == 0 <-> P == wsum z (psats_at k T)).
+Proof.
+  intros I L NZ H. destruct (bubble_T_error_ideal_form _ _ _ _ _ _ _ _ I L H) as (_ & _ & E).
+  rewrite E. split; intros A.
+  - assert (wsum z (psats_at k T) / P == 1) as B by lra.
+    assert (wsum z (psats_at k T) / P * P == wsum z (psats_at k T)) as C by (field; exact NZ).
+    rewrite <- C, B. ring.
+  - rewrite <- A. field. exact NZ.
+Qed.
+
+Definition weg_fix (S : solvers) : Prop := forall f x, f (weg S f x) = weg S f x.
+
+Lemma existsb_qzerob_vones n : existsb qzerob (vones n) = false.
+Proof. induction n; simpl; auto. Qed.
+
+Lemma solve_x_ideal k S xg x_gamma T :
+  ideal_pkg k -> weg_fix S -> (length x_gamma <= length (chems k))%nat ->
+  solve_x k S xg x_gamma T =v= x_gamma.
+Proof.
+  intros (_ & Hg & _ & _) W L. unfold solve_x.
+  set (g := weg S (gamma_iter k x_gamma T) _).
+  assert (g = vones (length (chems k))) as Eg.
+  { unfold g. rewrite <- W. unfold gamma_iter at 1. apply Hg. }
+  rewrite Eg, existsb_qzerob_vones. apply vdivq_vones_r. exact L.
+Qed.
+
+Lemma clamp_lo_id m v : Forall (fun p => m <= p) v -> clamp_lo m v = v.
+Proof.
+  intros H; induction H as [|x v Hx Hv IH]; simpl; auto.
+  assert (qltb x m = false) as E by (apply qltb_false; exact Hx). rewrite E, IH. reflexivity.
+Qed.
+
+Lemma wsumi_mulr z p c : qsum (map2 Qdiv (map (fun a => a * c) z) p) == c * wsumi z p.
+Proof.
+  unfold wsumi. revert p; induction z as [|x z IH]; intros [|y p]; simpl; try ring.
+  rewrite IH. unfold Qdiv. ring.
+Qed.
+
+Lemma dew_T_error_ideal_form k S P z buf T v x :
+  ideal_pkg k -> weg_fix S -> length z = length (chems k) ->
+  Forall (fun p => c1em16 <= p) (psats_at k T) ->
+  dew_T_error k S P z (map (fun a => a * P) z) buf T = Ok (v, x) ->
+  0 < T /\ x =v= map2 Qdiv (map (fun a => a * P) z) (psats_at k T) /\
+  v == 1 - P * wsumi z (psats_at k T).
+Proof.
+  intros I W L Hps H. pose proof I as (_ & _ & Hph & Hpc). unfold dew_T_error in H.
+  destruct (qleb T 0) eqn:ET; [discriminate|]. apply qleb_false in ET.
+  rewrite (clamp_lo_id _ _ Hps), Hph, Hpc in H. inversion H; subst; clear H.
+  set (n := length (chems k)).
+  set (zP := map (fun a => a * P) z).
+  assert (length zP = n) as LzP by (unfold zP; rewrite map_length; exact L).
+  assert (map2 Qdiv (map2 Qdiv (vmul (vones n) zP) (psats_at k T)) (vones n)
+          =v= map2 Qdiv zP (psats_at k T)) as E.
+  { rewrite vdivq_vones_r.
+    - rewrite vmul_vones_l; [reflexivity | lia].
+    - rewrite map2_length_min, psats_at_length. fold n. lia. }
+  assert (solve_x k S buf (map2 Qdiv (map2 Qdiv (vmul (vones n) zP) (psats_at k T)) (vones n)) T
+          =v= map2 Qdiv zP (psats_at k T)) as E2.
+  { rewrite solve_x_ideal; auto. rewrite map2_length_min, vones_length. fold n. lia. }
+  split; [exact ET|]. split; [exact E2|]. rewrite E2. unfold zP. rewrite wsumi_mulr. reflexivity.
+Qed.
+
+Lemma ideal_closed_form_dew k S P z buf T v x :
+  ideal_pkg k -> weg_fix S -> length z = length (chems k) ->
+  Forall (fun p => c1em16 <= p) (psats_at k T) -> ~ P == 0 ->
+  dew_T_error k S P z (map (fun a => a * P) z) buf T = Ok (v, x) ->
+  (v == 0 <-> 1 / P == wsumi z (psats_at k T)).
+Proof.
+  intros I W L Hps NZ H.
+  destruct (dew_T_error_ideal_form _ _ _ _ _ _ _ _ I W L Hps H) as (_ & _ & E).
+  rewrite E. split; intros A.
+  - assert (P * wsumi z (psats_at k T) == 1) as B by lra.
+    assert (wsumi z (psats_at k T) == P * wsumi z (psats_at k T) / P) as C by (field; exact NZ).
+    rewrite C, B. reflexivity.
+  - rewrite <- A. field. exact NZ.
+Qed.
+
+(* the pressure kernels in an ideal package *)
+Lemma bubble_P_error_ideal_form k S T z buf P v y :
+  ideal_pkg k -> length z = length (chems k) ->
+  bubble_P_error k S T (Py_prep k z T) (psats_at k T) buf P = Ok (v, y) ->
+  0 < P /\ v == 1 - wsum (znorm z) (psats_at k T) / P.
+Proof.
+  intros (Hphi & Hg & _ & Hpc) L H. unfold bubble_P_error in H.
+  destruct (qleb P 0) eqn:EP; [discriminate|]. apply qleb_false in EP.
+  unfold solve_y, Py_prep in H. rewrite Hphi, Hg, Hpc in H. inversion H; subst; clear H.
+  split; [exact EP|].
+  assert (length (znorm z) = length (chems k)) as Ln by (unfold znorm, vdivs; rewrite map_length; exact L).
+  assert (length (vmul (znorm z) (psats_at k T)) = length (chems k)) as L1.
+  { rewrite vmul_length; [exact Ln|]. rewrite psats_at_length. exact Ln. }
+  rewrite qsum_vdivs. rewrite vmul_vones_r.
+  - rewrite vmul_vones_r; [reflexivity | lia].
+  - rewrite vmul_length; [lia|]. rewrite L1, vones_length. reflexivity.
+Qed.
+
+Lemma dew_P_error_ideal_form k S T z buf P v x :
+  ideal_pkg k -> weg_fix S -> length z = length (chems k) ->
+  dew_P_error k S T (fst (Px_prep k z T)) (snd (Px_prep k z T)) (psats_at k T) buf P = Ok (v, x) ->
+  0 < P /\ v == 1 - P * wsumi (znorm z) (psats_at k T).
+Proof.
+  intros I W L H. pose proof I as (_ & _ & Hph & Hpc). unfold dew_P_error, Px_prep in H. cbn [fst snd] in H.
+  destruct (qleb P 0) eqn:EP; [discriminate|]. apply qleb_false in EP.
+  rewrite Hph, Hpc in H. inversion H; subst; clear H.
+  split; [exact EP|].
+  set (n := length (chems k)).
+  assert (length (znorm z) = n) as Ln by (unfold znorm, vdivs; rewrite map_length; exact L).
+  set (w := map (fun a => a * P) (map2 Qdiv (znorm z) (psats_at k T))).
+  assert (length w = n) as Lw.
+  { unfold w. rewrite map_length, map2_length_min, psats_at_length, Ln. apply Nat.min_id. }
+  rewrite solve_x_ideal; auto.
+  - rewrite vdivq_vones_r; [|unfold vmul; rewrite map2_length_min, vones_length; lia].
+    rewrite vmul_vones_r; [|lia]. unfold w. rewrite qsum_map_mulr. unfold wsumi. ring.
+  - rewrite map2_length_min, vones_length. fold n. lia.
+Qed.
+
+(* ---------- root-finder contracts and soundness of the four wrappers ---------- *)
+(* x is a root of f and b is the buffer written by an evaluation of f at x *)
+Definition root_of (f : resid) (x : Q) (b : vec) : Prop :=
+  exists b0 v, f b0 x = Ok (v, b) /\ v == 0.
+Definition secant_ok (S : solvers) : Prop :=
+  forall f b x0 x1 x b', secant S f b x0 x1 = SOk x b' -> root_of f x b'.
+Definition iq_ok (S : solvers) : Prop :=
+  forall f b x0 x1 y0 y1 g x b', iq S f b x0 x1 y0 y1 g = SOk x b' -> root_of f x b'.
+
+Lemma secant_or_iq_root S f buf x0 x1 lo hi x b :
+  secant_ok S -> iq_ok S -> secant_or_iq S f buf x0 x1 lo hi = Ok (x, b) -> root_of f x b.
+Proof.
+  intros HS HI H. unfold secant_or_iq in H.
+  destruct (secant S f buf x0 x1) as [r rb|e eb] eqn:E.
+  - inversion H; subst. eapply HS; eauto.
+  - destruct (is_runtime e); simpl in H; [|discriminate].
+    destruct (f eb lo) as [a|]; simpl in H; [|discriminate].
+    destruct (f (snd a) hi) as [c|]; simpl in H; [|discriminate].
+    destruct (iq S f (snd c) lo hi (fst a) (fst c) (Some x0)) as [r rb|e' eb'] eqn:E'; simpl in H; [|discriminate].
+    inversion H; subst. eapply HI; eauto.
+Qed.
+
+Definition N2 (z : vec) : Prop := (2 <= count_true (positives z))%nat.
+
+Lemma solve_Ty_sound k S z P T y : secant_ok S -> iq_ok S -> N2 z ->
+  solve_Ty k S z P = Ok (T, y) ->
+  ~ qsum z == 0 /\
+  exists raw, root_of (bubble_T_error k S P (vdivs (znorm z) P) (znorm z)) T raw /\ y = normalize raw.
+Proof.
+  intros HS HI HN H. unfold N2 in HN. unfold solve_Ty in H.
+  destruct (count_true (positives z)) as [|[|n]]; try lia.
+  destruct (qzerob (qsum z)) eqn:EZ; [discriminate|]. apply qzerob_false in EZ.
+  split; [exact EZ|]. unfold Ty_prep in H. cbn [fst snd] in H.
+  destruct (Ty_ideal k S (vdivs (znorm z) P)) as [g|]; simpl in H; [|discriminate].
+  destruct (secant_or_iq S _ (snd g) (fst g) (fst g + c1em3) (pTmin k) (pTmax k)) as [r|] eqn:E; simpl in H; [|discriminate].
+  inversion H; subst. destruct r as [r rb]. exists rb. split; [|reflexivity].
+  eapply secant_or_iq_root; eauto.
+Qed.
+
+Lemma solve_Py_sound k S z T P y : secant_ok S -> iq_ok S -> N2 z ->
+  solve_Py k S z T = Ok (P, y) ->
+  ~ qsum z == 0 /\
+  exists raw, root_of (bubble_P_error k S (clampT k T) (Py_prep k z (clampT k T)) (psats_at k (clampT k T))) P raw
+              /\ y = normalize raw.
+Proof.
+  intros HS HI HN H. unfold N2 in HN. unfold solve_Py in H.
+  destruct (count_true (positives z)) as [|[|n]]; try lia.
+  destruct (qzerob (qsum z)) eqn:EZ; [discriminate|]. apply qzerob_false in EZ.
+  split; [exact EZ|].
+  destruct (secant_or_iq S _ _ _ _ (pPmin k) (pPmax k)) as [r|] eqn:E; simpl in H; [|discriminate].
+  inversion H; subst. destruct r as [r rb]. exists rb. split; [|reflexivity].
+  eapply secant_or_iq_root; eauto.
+Qed.
+
+Lemma solve_Tx_sound k S z P T x : secant_ok S -> iq_ok S -> N2 z ->
+  solve_Tx k S z P = Ok (T, x) ->
+  ~ qsum z == 0 /\
+  exists raw, root_of (dew_T_error k S P (znorm z) (map (fun a => a * P) (znorm z))) T raw /\ x = normalize raw.
+Proof.
+  intros HS HI HN H. unfold N2 in HN. unfold solve_Tx in H.
+  destruct (count_true (positives z)) as [|[|n]]; try lia.
+  destruct (qzerob (qsum z)) eqn:EZ; [discriminate|]. apply qzerob_false in EZ.
+  split; [exact EZ|]. unfold Tx_prep in H. cbn [fst snd] in H.
+  destruct (Tx_ideal k S _) as [g|]; simpl in H; [|discriminate].
+  destruct (secant_or_iq S _ (snd g) (fst g) (fst g + c1em3) (pTmin k) (pTmax k)) as [r|] eqn:E; simpl in H; [|discriminate].
+  inversion H; subst. destruct r as [r rb]. exists rb. split; [|reflexivity].
+  eapply secant_or_iq_root; eauto.
+Qed.
+
+Lemma solve_Px_sound k S z T P x : secant_ok S -> iq_ok S -> N2 z ->
+  solve_Px k S z T = Ok (P, x) ->
+  ~ qsum z == 0 /\
+  exists raw, root_of (dew_P_error k S T (fst (Px_prep k z T)) (snd (Px_prep k z T)) (psats_at k T)) P raw
+              /\ x = normalize raw.
+Proof.
+  intros HS HI HN H. unfold N2 in HN. unfold solve_Px in H.
+  destruct (count_true (positives z)) as [|[|n]]; try lia.
+  destruct (qzerob (qsum z)) eqn:EZ; [discriminate|]. apply qzerob_false in EZ.
+  split; [exact EZ|].
+  destruct (Px_ideal _) as [g|]; simpl in H; [|discriminate].
+  destruct (secant_or_iq S _ (snd g) (fst g) (fst g - 10) (pPmin k) (pPmax k)) as [r|] eqn:E; simpl in H; [|discriminate].
+  inversion H; subst. destruct r as [r rb]. exists rb. split; [|reflexivity].
+  eapply secant_or_iq_root; eauto.
+Qed.
+
+(* every residual kernel returns 1 - sum(buffer): at a root the raw fractions sum to one *)
+Lemma bubble_T_root_sum1 k S P a b T raw : root_of (bubble_T_error k S P a b) T raw -> 0 < T /\ qsum raw == 1.
+Proof.
+  intros (b0 & v & H & V). unfold bubble_T_error in H.
+  destruct (qleb T 0) eqn:E; [discriminate|]. apply qleb_false in E. inversion H; subst. split; [exact E|lra].
+Qed.
+Lemma bubble_P_root_sum1 k S T a b P raw : root_of (bubble_P_error k S T a b) P raw -> 0 < P /\ qsum raw == 1.
+Proof.
+  intros (b0 & v & H & V). unfold bubble_P_error in H.
+  destruct (qleb P 0) eqn:E; [discriminate|]. apply qleb_false in E. inversion H; subst. split; [exact E|lra].
+Qed.
+Lemma dew_T_root_sum1 k S P a b T raw : root_of (dew_T_error k S P a b) T raw -> 0 < T /\ qsum raw == 1.
+Proof.
+  intros (b0 & v & H & V). unfold dew_T_error in H.
+  destruct (qleb T 0) eqn:E; [discriminate|]. apply qleb_false in E. inversion H; subst. split; [exact E|lra].
+Qed.
+Lemma dew_P_root_sum1 k S T a b c P raw : root_of (dew_P_error k S T a b c) P raw -> 0 < P /\ qsum raw == 1.
+Proof.
+  intros (b0 & v & H & V). unfold dew_P_error in H.
+  destruct (qleb P 0) eqn:E; [discriminate|]. apply qleb_false in E. inversion H; subst. split; [exact E|lra].
+Qed.
+
+(* the vapour fractions implied by modified Raoult's law at the returned point *)
+Definition raoult_y (k : pkg) (S : solvers) (zn : vec) (T P : Q) : vec :=
+  let Ps := psats_at k T in
+  solve_y k S (vmul (vmul (vmul (vdivs zn P) Ps) (gam k zn T)) (pcf k T P Ps)) T P.
+
+Lemma bubble_T_root_raoult k S P zn T raw :
+  root_of (bubble_T_error k S P (vdivs zn P) zn) T raw -> raw = raoult_y k S zn T P.
+Proof.
+  intros (b0 & v & H & V). unfold bubble_T_error in H.
+  destruct (qleb T 0); [discriminate|]. inversion H; subst. reflexivity.
+Qed.
+
+(* composition facts *)
+Lemma positives_count_sum z : nonneg z -> (1 <= count_true (positives z))%nat -> 0 < qsum z.
+Proof.
+  intros H; induction H as [|x z Hx Hz IH]; unfold count_true, positives in *; simpl; [lia|].
+  intros C. pose proof (qsum_nonneg z Hz) as N.
+  destruct (qltb 0 x) eqn:E.
+  - apply qltb_true in E. lra.
+  - simpl in C. specialize (IH C). lra.
+Qed.
+
+Lemma znorm_length z : length (znorm z) = length z.
+Proof. unfold znorm, vdivs. apply map_length. Qed.
+Lemma znorm_sum1 z : ~ qsum z == 0 -> qsum (znorm z) == 1.
+Proof. intros H. unfold znorm. rewrite qsum_vdivs. field. exact H. Qed.
+Lemma znorm_nonneg z : nonneg z -> 0 < qsum z -> nonneg (znorm z).
+Proof.
+  intros H S. unfold znorm, vdivs, nonneg. apply Forall_forall. intros x Hx. apply in_map_iff in Hx.
+  destruct Hx as (y & <- & Hy). unfold nonneg in H. rewrite Forall_forall in H. specialize (H _ Hy).
+  apply Qle_shift_div_l; lra.
+Qed.
+
+(* ---------- T <-> P inverse ---------- *)
+(* phi ideal, pcf = 1, any gamma: solving for P at the bubble temperature found for P returns P *)
+Definition ideal_vapour (k : pkg) : Prop :=
+  phi_ideal k = true /\ (forall T P Ps, pcf k T P Ps = vones (length (chems k))).
+Definition gam_shape (k : pkg) : Prop := forall x T, length (gam k x T) = length x.
+
+Lemma TP_inverse_lemma k S z P T y P' y' :
+  secant_ok S -> iq_ok S -> N2 z -> ideal_vapour k -> gam_shape k -> length z = length (chems k) ->
+  ~ P == 0 -> pTmin k <= T <= pTmax k ->
+  solve_Ty k S z P = Ok (T, y) -> solve_Py k S z T = Ok (P', y') -> P' == P.
+Proof.
+  intros HS HI HN (Hphi & Hpc) Hg L NZ (Tlo & Thi) H1 H2.
+  destruct (solve_Ty_sound _ _ _ _ _ _ HS HI HN H1) as (_ & r1 & (b1 & v1 & R1 & V1) & _).
+  destruct (solve_Py_sound _ _ _ _ _ _ HS HI HN H2) as (_ & r2 & (b2 & v2 & R2 & V2) & _).
+  assert (clampT k T = T) as EC.
+  { unfold clampT. assert (qltb (pTmax k) T = false) as -> by (apply qltb_false; exact Thi).
+    assert (qltb T (pTmin k) = false) as -> by (apply qltb_false; exact Tlo). reflexivity. }
+  rewrite EC in R2.
+  unfold bubble_T_error in R1. destruct (qleb T 0); [discriminate|].
+  unfold bubble_P_error in R2. destruct (qleb P' 0) eqn:EP; [discriminate|]. apply qleb_false in EP.
+  unfold solve_y, Py_prep in *. rewrite Hphi, Hpc in *. inversion R1; subst; clear R1. inversion R2; subst; clear R2.
+  set (zn := znorm z) in *. set (Ps := psats_at k T) in *. set (n := length (chems k)) in *.
+  assert (length zn = n) as Lzn by (unfold zn; rewrite znorm_length; exact L).
+  assert (length Ps = n) as LPs by apply psats_at_length.
+  assert (length (vmul (vmul zn Ps) (gam k zn T)) = n) as L3.
+  { rewrite vmul_length; rewrite vmul_length; try lia. rewrite Hg. lia. }
+  assert (length (vmul (vmul (vdivs zn P) Ps) (gam k zn T)) = n) as L4.
+  { assert (length (vdivs zn P) = n) as Ld by (unfold vdivs; rewrite map_length; exact Lzn).
+    rewrite vmul_length; rewrite vmul_length; try lia. rewrite Hg. lia. }
+  rewrite vmul_vones_r in V1 by lia. rewrite qsum_vdivs in V2. rewrite vmul_vones_r in V2 by lia.
+  rewrite vmul_vdivs_l in V1. rewrite vmul_vdivs_l in V1. rewrite qsum_vdivs in V1.
+  set (K := qsum (vmul (vmul zn Ps) (gam k zn T))) in *.
+  assert (K == P) as E1.
+  { assert (K / P == 1) as B by lra. assert (K / P * P == K) as C by (field; exact NZ). rewrite <- C, B. ring. }
+  assert (K == P') as E2.
+  { assert (K / P' == 1) as B by lra. assert (K / P' * P' == K) as C by (field; lra). rewrite <- C, B. ring. }
+  rewrite <- E2. exact E1.
+Qed.
+
+(* the converse direction needs uniqueness of the root in T: K(T) = sum zn_i Psat_i(T) gamma_i(zn, T) injective *)
+Definition Kfun (k : pkg) (z : vec) (T : Q) : Q :=
+  qsum (vmul (vmul (znorm z) (psats_at k T)) (gam k (znorm z) T)).
+
+Lemma PT_inverse_lemma k S z T P y T' y' :
+  secant_ok S -> iq_ok S -> N2 z -> ideal_vapour k -> gam_shape k -> length z = length (chems k) ->
+  pTmin k <= T <= pTmax k ->
+  (forall a b, Kfun k z a == Kfun k z b -> a == b) ->
+  solve_Py k S z T = Ok (P, y) -> solve_Ty k S z P = Ok (T', y') -> T' == T.
+Proof.
+  intros HS HI HN (Hphi & Hpc) Hg L (Tlo & Thi) Inj H2 H1.
+  destruct (solve_Ty_sound _ _ _ _ _ _ HS HI HN H1) as (_ & r1 & (b1 & v1 & R1 & V1) & _).
+  destruct (solve_Py_sound _ _ _ _ _ _ HS HI HN H2) as (_ & r2 & (b2 & v2 & R2 & V2) & _).
+  assert (clampT k T = T) as EC.
+  { unfold clampT. assert (qltb (pTmax k) T = false) as -> by (apply qltb_false; exact Thi).
+    assert (qltb T (pTmin k) = false) as -> by (apply qltb_false; exact Tlo). reflexivity. }
+  rewrite EC in R2.
+  unfold bubble_T_error in R1. destruct (qleb T' 0); [discriminate|].
+  unfold bubble_P_error in R2. destruct (qleb P 0) eqn:EP; [discriminate|]. apply qleb_false in EP.
+  unfold solve_y, Py_prep in *. rewrite Hphi, Hpc in *. inversion R1; subst; clear R1. inversion R2; subst; clear R2.
+  apply Inj. unfold Kfun.
+  set (zn := znorm z) in *. set (n := length (chems k)) in *.
+  assert (length zn = n) as Lzn by (unfold zn; rewrite znorm_length; exact L).
+  assert (forall t, length (vmul (vmul zn (psats_at k t)) (gam k zn t)) = n) as L3.
+  { intros t. rewrite vmul_length; rewrite vmul_length; rewrite ?psats_at_length; try lia. rewrite Hg. lia. }
+  assert (length (vmul (vmul (vdivs zn P) (psats_at k T')) (gam k zn T')) = n) as L4.
+  { assert (length (vdivs zn P) = n) as Ld by (unfold vdivs; rewrite map_length; exact Lzn).
+    rewrite vmul_length; rewrite vmul_length; rewrite ?psats_at_length; try lia. rewrite Hg. lia. }
+  rewrite vmul_vones_r in V1 by lia. rewrite qsum_vdivs in V2. rewrite vmul_vones_r in V2 by (rewrite L3; lia).
+  rewrite vmul_vdivs_l in V1. rewrite vmul_vdivs_l in V1. rewrite qsum_vdivs in V1.
+  set (K1 := qsum (vmul (vmul zn (psats_at k T')) (gam k zn T'))) in *.
+  set (K2 := qsum (vmul (vmul zn (psats_at k T)) (gam k zn T))) in *.
+  assert (K1 == P) as E1.
+  { assert (K1 / P == 1) as B by lra. assert (K1 / P * P == K1) as C by (field; lra). rewrite <- C, B. ring. }
+  assert (K2 == P) as E2.
+  { assert (K2 / P == 1) as B by lra. assert (K2 / P * P == K2) as C by (field; lra). rewrite <- C, B. ring. }
+  rewrite E1, E2. reflexivity.
+Qed.
